@@ -6,6 +6,7 @@ use std::path::PathBuf;
 use hcommon::{Report, read_ndjson};
 use serde_json::{Value, json};
 
+mod trace;
 mod verify;
 mod world;
 
@@ -19,6 +20,7 @@ fn main() {
     let rt = tokio::runtime::Builder::new_multi_thread().worker_threads(4).enable_all().build().unwrap();
     match args[1].as_str() {
         "replay" => rt.block_on(replay(&mut rep, &args[2], &args[3])),
+        "trace" => rt.block_on(trace_cmd(&mut rep, &args[2], &args[3])),
         other => panic!("unknown subcommand {other}"),
     }
     rep.finish();
@@ -172,6 +174,7 @@ pub struct Stats {
     events_compared: u64,
     lookups: u64,
     segments: u64,
+    max_append_ms: u64,
 }
 
 impl Stats {
@@ -204,6 +207,7 @@ async fn replay(rep: &mut Report, plans: &str, which: &str) {
                 async move {
                     let mut st = Stats::default();
                     let r = run_behaviour(&which, &beh, &var, dir, seed, &mut st).await;
+                    shutdown_all().await;
                     (r, st)
                 }
             })
@@ -258,4 +262,243 @@ async fn replay(rep: &mut Report, plans: &str, which: &str) {
     for v in &vars {
         rep.class(format!("variant:{}", v.name));
     }
+}
+
+// ---------------------------------------------------------------------------
+// C01 / C20: record hook traces of real runs for TraceDurability.tla, with reads issued
+// right after every acknowledgement and after close + reopen
+
+fn trace_variants(quick: bool) -> Vec<Variant> {
+    let base = DbCfg::small(1);
+    let mut v = vec![
+        Variant { cfg: DbCfg { ..base.clone() }, rule: PayloadRule::Rollover, name: "sync-each-append" },
+        Variant {
+            cfg: DbCfg { sync_interval_ms: 40, min_sync_bytes: 1 << 30, max_batch: 1000, compression: true, ..base.clone() },
+            rule: PayloadRule::Rollover,
+            name: "timer-sync+zstd",
+        },
+    ];
+    if !quick {
+        v.push(Variant { cfg: DbCfg { sync_interval_ms: 200, min_sync_bytes: 1 << 30, max_batch: 1000, segment_size: 256 * 1024, ..base.clone() }, rule: PayloadRule::Mixed, name: "slow-timer-256k" });
+        v.push(Variant { cfg: DbCfg { sync_interval_ms: 5, min_sync_bytes: 4096, max_batch: 50, compression: true, ..base.clone() }, rule: PayloadRule::Straddle, name: "defaults-like" });
+    }
+    v
+}
+
+/// reads issued immediately after an acknowledgement: every event of the transaction by id,
+/// and its presence in the stream and partition scans
+async fn read_after_ack(w: &World, evs: &[RefEvent]) -> Result<(), String> {
+    let db = w.db();
+    for e in evs {
+        match db.read_event(e.p, e.event_id).await {
+            Ok(Some(r)) => World::same(&r, e, w.key_of(e))?,
+            Ok(None) => return Err(format!("read_event(seq {}) right after the acknowledgement returned None", e.seq)),
+            Err(x) => return Err(format!("read_event(seq {}) right after the acknowledgement failed: {x}", e.seq)),
+        }
+    }
+    let first = &evs[0];
+    let got = flatten(&scan_partition(db, first.p, first.seq, sierradb::IterDirection::Forward, 50).await?.concat());
+    for e in evs {
+        match got.iter().find(|r| r.event_id == e.event_id) {
+            Some(r) => World::same(r, e, w.key_of(e))?,
+            None => return Err(format!("partition scan from {} right after the acknowledgement lacks sequence {}", first.seq, e.seq)),
+        }
+    }
+    for e in evs {
+        let b = w.bucket_of(e.p);
+        let got = flatten(&scan_stream(db, b, &e.stream, e.ver, sierradb::IterDirection::Forward, 50).await?.concat());
+        match got.iter().find(|r| r.event_id == e.event_id) {
+            Some(r) => World::same(r, e, w.key_of(e))?,
+            None => return Err(format!("stream scan of {} from {} right after the acknowledgement lacks the event", e.stream, e.ver)),
+        }
+        let lv = latest(db, w, b, &e.stream).await?;
+        if lv < e.ver as i64 {
+            return Err(format!("get_stream_version({}) = {lv} right after version {} was acknowledged", e.stream, e.ver));
+        }
+    }
+    Ok(())
+}
+
+async fn trace_run(beh: &Value, var: &Variant, dir: PathBuf, seed: u64, rec: &trace::Recorder, stats: &mut Stats) -> Result<(), (String, Value)> {
+    use rand::{RngExt, SeedableRng};
+    let mut rng = rand::rngs::StdRng::seed_from_u64(seed ^ 0x77);
+    rec.take();
+    let mut w = World::new(dir, var.cfg.clone(), var.rule, seed).map_err(|e| ("c01:open".to_string(), json!(e)))?;
+    let steps = beh["steps"].as_array().unwrap();
+    for (k, st) in steps.iter().enumerate() {
+        let tx = &st["tx"];
+        let res = &st["res"];
+        let prep = w.prepare(tx);
+        let t0 = std::time::Instant::now();
+        let got = w.db().append_events(prep.tx.clone()).await;
+        stats.max_append_ms = stats.max_append_ms.max(t0.elapsed().as_millis() as u64);
+        stats.appends += 1;
+        if let Err(e) = w.compare_append(&prep, res, &got) {
+            return Err(("c01:append-outcome".into(), json!({"step": k, "tx": tx, "model": res, "problem": e})));
+        }
+        if got.is_ok() {
+            stats.accepted += 1;
+            let p = prep.events[0].p;
+            let n0 = w.log.get(&p).map(|l| l.len()).unwrap_or(0);
+            w.record(prep, res);
+            let evs: Vec<RefEvent> = w.log[&p][n0..].to_vec();
+            let r = read_after_ack(&w, &evs).await;
+            rec.mark("h.read", &[("partition", p as u64), ("first_seq", evs[0].seq), ("found", r.is_ok() as u64)]);
+            if let Err(e) = r {
+                return Err(("c01:read-after-ack".into(), json!({"step": k, "tx": tx, "problem": e})));
+            }
+            stats.lookups += evs.len() as u64;
+        }
+        if rng.random_range(0..15) == 0 {
+            stats.reopens += 1;
+            reopen(&mut w).await.map_err(|e| ("c01:reopen".to_string(), json!({"step": k, "problem": e})))?;
+            rec.mark("h.reopen", &[]);
+            let r = verify_reads(&w, false, true).await.map_err(|e| ("c01:read-after-reopen".to_string(), json!({"step": k, "problem": e})))?;
+            stats.add(&r);
+        }
+    }
+    // concurrent clients on the same bucket: acknowledgements interleave with syncs
+    let w = std::sync::Arc::new(tokio::sync::Mutex::new(w));
+    let ntasks = 4usize;
+    let mut handles = vec![];
+    for t in 0..ntasks {
+        let w = w.clone();
+        let rec = rec.clone();
+        handles.push(tokio::spawn(async move {
+            let mut out: Vec<(Vec<RefEvent>, u64)> = vec![];
+            let stream = format!("conc{t}");
+            let mut ver = 0u64;
+            for i in 0..6u64 {
+                let n = 1 + (i as usize + t) % 3;
+                let txv = json!({"id": 100_000 + t as u64 * 100 + i, "key": format!("kc{t}"), "p": t % 3, "xs": {"k": "any"}, "oversize": false,
+                    "evs": (0..n).map(|_| json!({"s": stream, "x": {"k": "any"}, "badts": false})).collect::<Vec<_>>()});
+                let (prep, db) = {
+                    let mut g = w.lock().await;
+                    (g.prepare(&txv), g.db().clone())
+                };
+                let t0 = std::time::Instant::now();
+                let r = db.append_events(prep.tx.clone()).await.map_err(|e| format!("concurrent append failed: {e}"))?;
+                let ms = t0.elapsed().as_millis() as u64;
+                let mut evs = prep.events;
+                for (j, e) in evs.iter_mut().enumerate() {
+                    e.seq = r.first_partition_sequence + j as u64;
+                    e.ver = ver + j as u64;
+                }
+                ver += n as u64;
+                let ok = {
+                    let g = w.lock().await;
+                    read_after_ack(&g, &evs).await
+                };
+                rec.mark("h.read", &[("partition", evs[0].p as u64), ("first_seq", evs[0].seq), ("found", ok.is_ok() as u64)]);
+                ok?;
+                out.push((evs, ms));
+            }
+            Ok::<_, String>(out)
+        }));
+    }
+    let mut conc: Vec<RefEvent> = vec![];
+    for h in handles {
+        match h.await {
+            Ok(Ok(v)) => {
+                for (evs, ms) in v {
+                    stats.appends += 1;
+                    stats.accepted += 1;
+                    stats.max_append_ms = stats.max_append_ms.max(ms);
+                    conc.extend(evs);
+                }
+            }
+            Ok(Err(e)) => return Err(("c01:read-after-ack".into(), json!({"phase": "concurrent", "problem": e}))),
+            Err(_) => return Err(("c01:panic".into(), json!({"phase": "concurrent", "problem": hcommon::last_panic()}))),
+        }
+    }
+    let mut w = std::sync::Arc::try_unwrap(w).ok().expect("tasks done").into_inner();
+    conc.sort_by_key(|e| (e.p, e.seq));
+    for e in conc {
+        let l = w.log.entry(e.p).or_default();
+        if l.len() as u64 != e.seq {
+            return Err(("c01:sequence-gap".into(), json!({"partition": e.p, "expected": l.len(), "assigned": e.seq})));
+        }
+        l.push(e);
+    }
+    let r = verify_reads(&w, false, true).await.map_err(|e| ("c01:read".to_string(), json!({"problem": e, "storage": "live"})))?;
+    stats.add(&r);
+    stats.reopens += 1;
+    reopen(&mut w).await.map_err(|e| ("c01:reopen".to_string(), json!({"problem": e, "at": "end"})))?;
+    rec.mark("h.reopen", &[]);
+    let r = verify_reads(&w, true, true).await.map_err(|e| ("c01:read-after-reopen".to_string(), json!({"problem": e})))?;
+    stats.add(&r);
+    stats.segments += count_segments(&w.dir);
+    close(&mut w).await;
+    Ok(())
+}
+
+async fn trace_cmd(rep: &mut Report, plans: &str, out: &str) {
+    use std::io::Write;
+    let quick = hcommon::tier_quick();
+    let behs = read_ndjson(plans);
+    let vars = trace_variants(quick);
+    let root = scratch("trace");
+    let rec = trace::Recorder::install();
+    let mut stats = Stats::default();
+    let mut f = std::io::BufWriter::new(std::fs::File::create(out).unwrap());
+    let mut total_lines = 0u64;
+    let mut runs = 0u64;
+    for (bi, beh) in behs.iter().enumerate() {
+        for (vi, var) in vars.iter().enumerate() {
+            if quick && bi % vars.len() != vi {
+                continue;
+            }
+            rep.eval(1);
+            let seed = hcommon::seed().wrapping_mul(7919) ^ (bi as u64) << 8 ^ vi as u64;
+            let dir = root.join(format!("t{bi}v{vi}"));
+            let outcome = trace_run(beh, var, dir.clone(), seed, &rec, &mut stats).await;
+            shutdown_all().await;
+            // the trace of a failed run is validated too (up to the failure)
+            let converted = trace::to_trace(&rec.take(), &dir);
+            let _ = std::fs::remove_dir_all(&dir);
+            if let Err((key, detail)) = &outcome {
+                rep.violation(key, json!({"variant": var.name, "config": var.cfg.describe(), "detail": detail}),
+                    json!({"variant": var.name, "seed": seed, "behaviour": beh}));
+            }
+            match converted {
+                Ok(lines) => {
+                    if runs > 0 {
+                        writeln!(f, "{}", json!({"e": "reset"})).unwrap();
+                        total_lines += 1;
+                    }
+                    runs += 1;
+                    for l in &lines {
+                        writeln!(f, "{l}").unwrap();
+                    }
+                    total_lines += lines.len() as u64;
+                    if bi < 1 {
+                        rep.sample(json!({"variant": var.name, "trace_head": lines.iter().take(14).collect::<Vec<_>>()}));
+                    }
+                }
+                Err(e) => {
+                    rep.violation("c01:trace-conversion", json!({"variant": var.name, "problem": e}), json!({"variant": var.name, "seed": seed, "behaviour": beh}));
+                }
+            }
+        }
+    }
+    f.flush().unwrap();
+    sierradb::verif::clear();
+    let _ = std::fs::remove_dir_all(&root);
+    rep.set("runs", json!(runs));
+    rep.set("trace_lines", json!(total_lines));
+    rep.set("appends", json!(stats.appends));
+    rep.set("accepted", json!(stats.accepted));
+    rep.set("reopens", json!(stats.reopens));
+    rep.set("scans", json!(stats.scans));
+    rep.set("events_compared", json!(stats.events_compared));
+    rep.set("lookups", json!(stats.lookups));
+    rep.set("segments_created", json!(stats.segments));
+    rep.set("max_append_ms", json!(stats.max_append_ms));
+    rep.set("variants", json!(vars.iter().map(|v| v.name).collect::<Vec<_>>()));
+    for v in &vars {
+        rep.class(format!("variant:{}", v.name));
+    }
+    rep.class("sequential-with-rejections");
+    rep.class("concurrent-clients");
+    rep.class("close-reopen");
 }
